@@ -133,6 +133,24 @@ func countingLoop(pc *PolyCtx, b *ssa.BasicBlock) (hdr *ssa.BasicBlock, trips Po
 		if !isB || cmp.Op != token.LSS {
 			return d, nil, false
 		}
+		// the range form: next = phi(-1, next) + 1; next < len(s): len(s) trips
+		if nx, isNext := cmp.X.(*ssa.BinOp); isNext && nx.Op == token.ADD {
+			if ph, isPhi := nx.X.(*ssa.Phi); isPhi && ph.Block() == d && len(ph.Edges) == 2 {
+				one, isOne := constInt(nx.Y)
+				seeded, carried := false, false
+				for i, e := range ph.Edges {
+					if d.Dominates(d.Preds[i]) {
+						carried = e == ssa.Value(nx)
+					} else if k, isC := constInt(e); isC && k == -1 {
+						seeded = true
+					}
+				}
+				if isOne && one == 1 && seeded && carried && d.Succs[0].Dominates(b) {
+					return d, pc.Of(cmp.Y), true
+				}
+			}
+			return d, nil, false
+		}
 		ph, isPhi := cmp.X.(*ssa.Phi)
 		if !isPhi || ph.Block() != d || len(ph.Edges) != 2 {
 			return d, nil, false
